@@ -435,6 +435,9 @@ fn known_cases() -> Vec<(&'static str, KnownInput)> {
         t.push_str(&format!("(CHARACTER D {c} (CHARWD R 0.5))\n"));
     }
     v.push(("256-entry-point-redirections", KnownInput::Pl(t)));
+    // 15. a warning that pltotf reports one character past the end of a file that ends in a
+    // newline: rendering it looks for a line that `str::lines` does not yield
+    v.push(("warning-context-past-final-newline", KnownInput::Pl("(HEADER\n".into())));
     v
 }
 
